@@ -82,7 +82,7 @@ def main():
         'not_applicable': na,
         'notes': ('Every check: exit 0 = held on everything explored, exit 1 '
                   '+ VIOLATION line, exit 2 = harness error. VERIF_SEED is '
-                  'the only source of randomness. known_findings.jsonl lists '
+                  'the only source of randomness. known_findings.txt lists '
                   'confirmed defects recorded rather than repaired.'),
     }
     with open(os.path.join(ROOT, 'MANIFEST.json'), 'w') as f:
